@@ -9,7 +9,7 @@ package kvstore
 
 // cinv: every coefficient maps to a usable table of tableSize bytes; sizes keep the cursor arithmetic exact.
 //@ pred (k *KVStore) cinv() = k != nil && k.tablesByCoefficient != nil && 0 < k.tableSize && k.tableSize <= 4294967296 &&
-//@     (forall c uint64 {k.tablesByCoefficient[c]} :: c in k.tablesByCoefficient ==> c < 1073741824 && k.tablesByCoefficient[c] != nil && k.tablesByCoefficient[c].allocated == k.tableSize)
+//@     (forall c uint64 {k.tablesByCoefficient[c]} :: c in k.tablesByCoefficient ==> c < 1073741824 && k.tablesByCoefficient[c] != nil && k.tablesByCoefficient[c].offsetIndex != nil && k.tablesByCoefficient[c].inv() && k.tablesByCoefficient[c].allocated == k.tableSize)
 
 //@ func (k *KVStore) findCoefficient$1(i int, j int) bool
 //@   props C12
@@ -40,11 +40,11 @@ package kvstore
 //@   props C12
 //@   flag termination
 //@   requires #cinv: k.cinv()
-//@   requires #cursor_range: cursor < 4611686018427387904
+//@   requires #cursor_range: cursor < 4611686018427387904 && f != nil
 //@   ensures #lands_on_a_table [C12]: result.1 == nil && result.0 != 0 ==> (result.0 / k.tableSize) in k.tablesByCoefficient
 //@   ensures #no_table_skipped [C12]: result.1 == nil && result.0 != 0 ==> forall c uint64 :: c in k.tablesByCoefficient && cursor / k.tableSize < c && c < result.0 / k.tableSize ==>
 //@                !((cursor / k.tableSize) in k.tablesByCoefficient) && (forall d uint64 :: d in k.tablesByCoefficient && d > cursor / k.tableSize ==> d >= c)
 //@   ensures #never_backwards [C12]: result.1 == nil && result.0 != 0 ==> result.0 >= cursor
 //@   ensures #end_only_after_last_table [C12]: result.1 == nil && result.0 == 0 && len(k.tables) > 0 ==> forall c uint64 :: c in k.tablesByCoefficient && c > cursor / k.tableSize ==>
 //@                !((cursor / k.tableSize) in k.tablesByCoefficient) && (forall d uint64 :: d in k.tablesByCoefficient && d > cursor / k.tableSize ==> d >= c)
-//@   modifies nothing
+//@   modifies every(elems(k.tablesByCoefficient[0].memory))
